@@ -14,3 +14,6 @@ Definition rlbis (r : res (list lbi)) : string := show_res show_lbis r.
 Definition same_as (r : res lbi) (e : Z) : string :=
   show_res (fun x => show_bool (eqb x (L e)) ++ "," ++ show_bool (eqb (int_hash x) (int_hash (L e)))
                      ++ "," ++ show_lbi (int_cmp x (L e))) r.
+
+Definition both (r : res lbi) (e : Z) : string :=
+  match r with Val _ => rlbi r ++ "|" ++ same_as r e | _ => rlbi r end.
